@@ -81,6 +81,9 @@ pub struct AttrFn {
     pub is_result: bool,
     pub zero_arg: bool,
     pub deep: bool,
+    /// `cache_if` accepts only results for even keys / `invalidate_on` calls results for odd keys stale
+    pub accept_even_only: bool,
+    pub stale_when_odd: bool,
     pub call: fn(u32) -> Fake,
     pub key: fn(u32) -> String,
 }
@@ -188,10 +191,21 @@ pub fn run_history(af: &AttrFn, hist: &[AOp], prefix: &[usize]) -> ((Vec<String>
                         fs.push(AFinding { monitor: "wrong-value".into(), detail: format!("step {i} {}: returned {:?}, the body returns {:?}", op.render(), r, want) });
                     }
                     let key = (af.key)(*k);
+                    let accepted = !af.accept_even_only || *k % 2 == 0;
                     let served = vsched::with_replayed_choices(mark, || match twin.get(&key) {
+                        // the intended meaning of invalidate_on: a stale entry is not served, the fresh result replaces it
+                        Some(_) if af.stale_when_odd && *k % 2 == 1 => {
+                            if accepted {
+                                twin.put(&key, Fake { k: *k, size: twin_size(af, *k) });
+                            }
+                            false
+                        }
                         Some(_) => true,
                         None => {
-                            twin.put(&key, Fake { k: *k, size: twin_size(af, *k) });
+                            // the intended meaning of cache_if: a rejected result is not stored
+                            if accepted {
+                                twin.put(&key, Fake { k: *k, size: twin_size(af, *k) });
+                            }
                             false
                         }
                     });
